@@ -108,6 +108,14 @@ def contexts(R):
         for t2, a2 in (("Zahl", "Die"), ("Kommazahl", "Die"), ("Byte", "Der")):
             if t2 != R:
                 cs.append(("coerce-" + t2, lambda e, i, t2=t2, a2=a2: ["%s %s cn%d%s ist %s." % (a2, t2, i, t2[0], e), "Speichere %s in cn%d%s." % (e, i, t2[0])]))
+    if R in ("Zahl", "Kommazahl", "Byte"):
+        # loop bounds: any numeric type is admitted for start, end and step of a counting loop of any numeric counter type
+        for t2, pron in (("Zahl", "jede"), ("Kommazahl", "jede"), ("Byte", "jeden")):
+            cs.append(("for-to-" + t2, lambda e, i, t2=t2, pron=pron: ["Für %s %s cft%d%s von 1 bis %s, mache:" % (pron, t2, i, t2[0], e), "\tVerlasse die Schleife."]))
+            cs.append(("for-from-" + t2, lambda e, i, t2=t2, pron=pron: ["Für %s %s cff%d%s von %s bis 3, mache:" % (pron, t2, i, t2[0], e), "\tVerlasse die Schleife."]))
+            cs.append(("for-step-" + t2, lambda e, i, t2=t2, pron=pron: ["Für %s %s cfs%d%s von 1 bis 3 mit Schrittgröße %s, mache:" % (pron, t2, i, t2[0], e), "\tVerlasse die Schleife."]))
+    if R in ("Zahl", "Byte"):
+        cs.append(("repeat", lambda e, i: ["Wiederhole:", "\tVerlasse die Schleife.", "%s Mal." % e]))
     if R in ("Zahl", "Kommazahl", "Byte", "Wahrheitswert", "Buchstabe", "Text"):
         cs.append(("print", lambda e, i: ["Schreibe %s." % e]))
     return cs
@@ -256,6 +264,6 @@ def run(tier):
                 dict(cell=k, ctx=c, result_type=it[2], lines=it[3], stage=stage, detail=r["detail"], source=src))
     ck.sample(dict(cell=accepted[0][0], expr=accepted[0][1], checker_type=accepted[0][2]))
     ck.sample(recs[len(recs) // 2])
-    ck.cov["rule"] = "cells: every unary/binary/ternary/cast/type-check operator x tuples over 20 operand type classes (plus composite operands spanning several basic blocks); accepted cells x value contexts (boxing into Variable, initialiser, assignment, value argument, return, condition, list element, numeric coercions, print); each (cell, context) is one pipeline trace"
+    ck.cov["rule"] = "cells: every unary/binary/ternary/cast/type-check operator x tuples over 20 operand type classes (plus composite operands spanning several basic blocks); accepted cells x value contexts (boxing into Variable, initialiser, assignment, value argument, return, condition, list element, numeric coercions, start / end / step of counting loops of every counter type, repetition count, print); each (cell, context) is one pipeline trace"
     ck.assumptions += ["the checker's own result type is used to build the contexts (the property is about the lowering matching the type the checker assigned)"]
     return ck.finish(exhaustive=(tier == "thorough"))
